@@ -6,6 +6,9 @@ Tier B: reference recurrences (vf/refs.py), first validated against tier A on
 the whole overlap in the same run, then used for larger n.
 """
 import importlib
+import sys
+
+sys.setrecursionlimit(20000)
 from fractions import Fraction
 
 from . import common
@@ -83,9 +86,8 @@ def clear_all_memos():
     return n
 
 
-def stream_cost(cfg):
-    """Drive a configuration; return (fwd_steps, counters, failure-or-None)."""
-    run = D.drive(cfg, observers=False)
+def stream_cost_of_run(run):
+    """(fwd_steps, counters, failure-or-None) of a driven configuration."""
     M = run.machine
     if M is None:
         return None, None, f"construction failed: {run.construct_exc}"
@@ -97,11 +99,30 @@ def stream_cost(cfg):
     return M.fwd_steps, cnt, (bad[0].code if bad else None)
 
 
+def stream_cost(cfg):
+    return stream_cost_of_run(D.drive(cfg, observers=False))
+
+
+def stream_costs(cfgs):
+    """Drive all configurations (grouped, both sibling orders); returns a flat
+    list of (index, fwd, counters, err) with one or two entries per index."""
+    outs = D.run_box(cfgs, stream_cost_of_run, observers=False, orders=2)
+    flat = []
+    for i, lst in enumerate(outs):
+        seen = []
+        for o in lst:
+            if o not in seen:
+                seen.append(o)
+        for o in seen:
+            flat.append((i,) + tuple(o))
+    return [flat]
+
+
 # ===========================================================================
 # C05
 # ===========================================================================
-C05_BOUNDS = {"quick": dict(S=10, T=60, T_ms=40, T_rev=20, R=4, all_splits=16),
-              "thorough": dict(S=14, T=150, T_ms=100, T_rev=40, R=6,
+C05_BOUNDS = {"quick": dict(S=10, T=100, T_ms=64, T_rev=24, R=4, all_splits=16),
+              "thorough": dict(S=14, T=200, T_ms=128, T_rev=48, R=6,
                                all_splits=24)}
 
 
@@ -179,9 +200,7 @@ def check_c05(prop, tier):
             for cv in costs:
                 cfgs.append(D.Config("Revolve", (ram,) + tuple(cv), n))
 
-    def worker(idxs):
-        return [(i,) + stream_cost(cfgs[i]) for i in idxs]
-    parts = common.pmap(worker, len(cfgs))
+    parts = stream_costs(cfgs)
     nontriv = 0
     for part in parts:
         for i, fwd, cnt, err in part:
@@ -234,7 +253,7 @@ def check_c05(prop, tier):
 # ===========================================================================
 # C06
 # ===========================================================================
-C06_BOUNDS = {"quick": dict(S=8, T=30), "thorough": dict(S=11, T=60)}
+C06_BOUNDS = {"quick": dict(S=8, T=128), "thorough": dict(S=11, T=256)}
 
 
 def check_c06(prop, tier):
@@ -284,9 +303,7 @@ def check_c06(prop, tier):
             for st in ("RAM", "DISK"):
                 cfgs.append(D.Config("Mixed", (s, st), n))
 
-    def worker(idxs):
-        return [(i,) + stream_cost(cfgs[i]) for i in idxs]
-    parts = common.pmap(worker, len(cfgs))
+    parts = stream_costs(cfgs)
     got = {}
     nontriv = 0
     for part in parts:
@@ -408,9 +425,7 @@ def check_c07(prop, tier):
                 for c in ("Revolve", "DiskRevolve", "PeriodicDiskRevolve"):
                     cfgs.append(D.Config(c, (ram,) + cv, n))
 
-    def worker(idxs):
-        return [(i,) + stream_cost(cfgs[i]) for i in idxs]
-    parts = common.pmap(worker, len(cfgs))
+    parts = stream_costs(cfgs)
     cost = {}
     counters = {}
     for part in parts:
@@ -428,8 +443,11 @@ def check_c07(prop, tier):
                 continue
             res.add(traces_validated_against_impl=1, transitions=cnt[0])
             uf, ub, wd, rd = (F(x) for x in cv)
-            cost[cfg.key()] = (uf * cnt[0] + ub * cnt[1] + wd * cnt[2]
-                               + rd * cnt[3])
+            c_now = (uf * cnt[0] + ub * cnt[1] + wd * cnt[2] + rd * cnt[3])
+            if cfg.key() in cost and cost[cfg.key()] is not None \
+                    and c_now <= cost[cfg.key()]:
+                continue      # keep the worse of the two sibling orders
+            cost[cfg.key()] = c_now
             counters[cfg.key()] = cnt
     nontriv = set()
     for cfg in cfgs:
